@@ -7,9 +7,15 @@
   any mutator (accepted or rejected), `copy`, and `+` of two such blueprints.
 -/
 import BB.Proofs.Blueprint
+import BB.Proofs.G2Blueprint
+import BB.Proofs.G2Describe
+import BB.Proofs.DictEq
+import BB.Proofs.Copy
+import Mathlib.Logic.ExistsUnique
 
 namespace BB.C05
 open BB BB.BP
+open BB.G2
 
 /-- After any history, the name list is the canonical renumbering of its own base names. -/
 theorem names_canonical (h : Hist) : makeNamesUnique h.eval.names = h.eval.names :=
@@ -252,5 +258,707 @@ example : ((exampleHist.eval.changeArg "a3" (.str "stop") (.num 5) false).err = 
   decide +kernel
 example : ((exampleHist.eval.changeArg "zz" (.str "stop") (.num 5) false).err ≠ none) := by
   decide +kernel
+
+/-! ## G2 additions -/
+
+/-! ### unknown segment names are rejected, for every blueprint and every other input -/
+
+/-- the name the implementation looks up first: `name`, or its base with `replaceeverywhere` -/
+theorem targets_fst (b : BP) (name : String) (all : Bool) :
+    (b.targets name all).1 = if all then basename name else name := by
+  unfold targets; cases all <;> rfl
+
+/-- **unknown segment, `changeArg`** (clause "An unknown segment ... is rejected with an exception"):
+    for every blueprint, argument, value and both settings of `replaceeverywhere`, a name (base
+    name) that is not in the name list raises ValueError and leaves the blueprint unchanged. -/
+theorem changeArg_unknown_segment_rejected (b : BP) (name : String) (arg value : Val) (all : Bool)
+    (h : (if all then basename name else name) ∉ b.names) :
+    (b.changeArg name arg value all).err = some .value ∧ (b.changeArg name arg value all).st = b := by
+  unfold changeArg
+  rw [targets_fst]
+  simp [h]
+
+/-- **unknown segment, `changeDuration`**: for every blueprint, every duration value (numeric or
+    not) and both settings of `replaceeverywhere`: ValueError, blueprint unchanged. -/
+theorem changeDuration_unknown_segment_rejected (b : BP) (name : String) (dur : Val) (all : Bool)
+    (h : (if all then basename name else name) ∉ b.names) :
+    (b.changeDuration name dur all).err = some .value ∧ (b.changeDuration name dur all).st = b := by
+  unfold changeDuration
+  rw [targets_fst]
+  cases dur <;> simp [h]
+
+/-- **unknown segment, `setSegmentMarker`**: ValueError (from `list.index`), blueprint unchanged,
+    for every marker spec and marker id. -/
+theorem setSegmentMarker_unknown_segment_rejected (b : BP) (name : String) (m : Mark) (mid : Int)
+    (h : name ∉ b.names) :
+    (b.setSegmentMarker name m mid).err = some .value ∧ (b.setSegmentMarker name m mid).st = b := by
+  unfold setSegmentMarker
+  rw [(indexOf?_eq_none_iff b name).mpr h]
+  split <;> simp
+
+/-- **unknown segment, `removeSegmentMarker`**: rejected and blueprint unchanged for every marker
+    id; with a valid id (1 or 2) the exception is the KeyError the code re-raises. -/
+theorem removeSegmentMarker_unknown_segment_rejected (b : BP) (name : String) (mid : Int)
+    (h : name ∉ b.names) :
+    (b.removeSegmentMarker name mid).err ≠ none ∧ (b.removeSegmentMarker name mid).st = b ∧
+    ((mid = 1 ∨ mid = 2) → (b.removeSegmentMarker name mid).err = some .key) := by
+  unfold removeSegmentMarker
+  rw [(indexOf?_eq_none_iff b name).mpr h]
+  split
+  · rename_i hm
+    refine ⟨by simp, rfl, ?_⟩
+    intro h12; omega
+  · simp
+
+/-- **unknown segment, `removeSegment`**: KeyError, blueprint unchanged. -/
+theorem removeSegment_unknown_segment_rejected (b : BP) (name : String) (h : name ∉ b.names) :
+    (b.removeSegment name).err = some .key ∧ (b.removeSegment name).st = b := by
+  unfold removeSegment
+  rw [(indexOf?_eq_none_iff b name).mpr h]
+  simp
+
+/-- conversely the three name-addressed marker/removal calls accept every existing name -/
+theorem name_addressed_accept_iff (b : BP) (name : String) (m : Mark) (mid : Int) :
+    ((b.removeSegment name).err = none ↔ name ∈ b.names) ∧
+    ((b.setSegmentMarker name m mid).err = none ↔ (mid = 1 ∨ mid = 2) ∧ name ∈ b.names) ∧
+    ((b.removeSegmentMarker name mid).err = none ↔ (mid = 1 ∨ mid = 2) ∧ name ∈ b.names) := by
+  have hn := indexOf?_eq_none_iff b name
+  refine ⟨?_, ?_, ?_⟩
+  · unfold removeSegment
+    cases hx : b.indexOf? name with
+    | none => simp [hn.mp hx]
+    | some i =>
+      have : name ∈ b.names := (mem_names_iff_indexOf? b name).mpr ⟨i, hx⟩
+      simp [this]
+  · unfold setSegmentMarker
+    cases hx : b.indexOf? name with
+    | none =>
+      have := hn.mp hx
+      split <;> simp [this]
+    | some i =>
+      have : name ∈ b.names := (mem_names_iff_indexOf? b name).mpr ⟨i, hx⟩
+      split
+      · rename_i hm; simp; omega
+      · rename_i hm; simp [this]; omega
+  · unfold removeSegmentMarker
+    cases hx : b.indexOf? name with
+    | none =>
+      have := hn.mp hx
+      split <;> simp [this]
+    | some i =>
+      have : name ∈ b.names := (mem_names_iff_indexOf? b name).mpr ⟨i, hx⟩
+      split
+      · rename_i hm; simp; omega
+      · rename_i hm; simp [this]; omega
+
+example : "zz" ∉ exampleHist.eval.names ∧ basename "zz7" ∉ exampleHist.eval.names := by decide +kernel
+
+/-! ### unknown arguments are rejected -/
+
+/-- **`changeArg` on one segment is accepted exactly when** the name exists, the segment's
+    function is a callable, the argument resolves against that function's signature and the
+    resolved position exists in the stored argument tuple (`argOk`). -/
+theorem changeArg_accepts_iff (b : BP) (name : String) (arg value : Val) :
+    (b.changeArg name arg value false).err = none ↔
+      ∃ i, ∃ hi : i < b.segs.length, b.indexOf? name = some i ∧ argOk arg b.segs[i] = true := by
+  constructor
+  · intro h
+    obtain ⟨i, k, seg, hidx, hget, hk, hlt, _⟩ := changeArg_frame b name arg value h
+    obtain ⟨hi, _⟩ := indexOf?_some b name i hidx
+    refine ⟨i, hi, hidx, ?_⟩
+    have hs : b.segs[i] = seg := by
+      rw [List.getElem?_eq_getElem hi] at hget
+      exact Option.some.inj hget
+    rw [hs, argOk_iff]
+    refine ⟨?_, k, hk, hlt⟩
+    -- special functions raise
+    unfold changeArg at h
+    simp only [targets_false] at h
+    unfold changeArgLoop at h
+    unfold changeArgLoop at h
+    unfold changeArgOne at h
+    rw [hidx] at h
+    simp only [hget] at h
+    by_cases hsp : seg.fn.special = true
+    · simp [hsp] at h
+      split at h <;> simp at h
+    · simpa using hsp
+  · rintro ⟨i, hi, hidx, hok⟩
+    have hone := (changeArgOne_of_index b name arg value i hi hidx).1 hok
+    have hmem : name ∈ b.names := (mem_names_iff_indexOf? b name).mpr ⟨i, hidx⟩
+    unfold changeArg
+    simp only [targets_false]
+    have : b.names.contains name = true := by simpa using hmem
+    simp only [this, not_true_eq_false, if_false]
+    unfold changeArgLoop
+    rw [hone]
+    simp [changeArgLoop]
+
+/-- an argument *name* that is not a parameter of the segment's function does not resolve -/
+theorem argOk_unknown_name (s : Seg) (a : String) (h : a ∉ s.fn.params) :
+    argOk (.str a) s = false ∧ argIndex s (.str a) = .error .value := by
+  unfold argOk argIndex
+  simp [h]
+
+/-- an argument *position* outside `range(len(signature) - 2)` does not resolve -/
+theorem argOk_position_out_of_range (s : Seg) (n : Int)
+    (h : n < 0 ∨ ((s.fn.params.length - 2 : Nat) : Int) ≤ n) :
+    argOk (.num n) s = false ∧ argIndex s (.num n) = .error .value := by
+  have hd : (n : Rat).den = 1 := Rat.den_intCast n
+  have hn : (n : Rat).num = n := Rat.num_intCast n
+  have : ¬ (0 ≤ n ∧ n.toNat < s.fn.params.length - 2) := by omega
+  unfold argOk argIndex
+  simp [hd, hn, this]
+
+/-- **unknown argument name, `changeArg`** (clause "An unknown ... argument ... is rejected with an
+    exception and a single-segment edit that is rejected leaves the blueprint unchanged"): for every
+    blueprint, every existing segment `name` with a callable function, every string `a` that is not
+    one of that function's parameters and every value: ValueError, blueprint unchanged. -/
+theorem changeArg_unknown_argument_name_rejected (b : BP) (name a : String) (value : Val) (i : Nat)
+    (hi : i < b.segs.length) (hidx : b.indexOf? name = some i)
+    (hsp : (b.segs[i]).fn.special = false) (ha : a ∉ (b.segs[i]).fn.params) :
+    (b.changeArg name (.str a) value false).err = some .value ∧
+    (b.changeArg name (.str a) value false).st = b := by
+  have hmem : name ∈ b.names := (mem_names_iff_indexOf? b name).mpr ⟨i, hidx⟩
+  have hc : b.names.contains name = true := by simpa using hmem
+  have hget : b.segs[i]? = some b.segs[i] := List.getElem?_eq_getElem hi
+  have hk := (argOk_unknown_name b.segs[i] a ha).2
+  unfold changeArg
+  simp only [targets_false, hc, not_true_eq_false, if_false]
+  unfold changeArgLoop changeArgOne
+  simp [hidx, hget, hsp, hk]
+
+/-- **out-of-range argument position, `changeArg`**: for every blueprint, every existing segment
+    with a callable function and every integer position outside `range(#parameters - 2)`
+    (negative positions included): ValueError, blueprint unchanged. -/
+theorem changeArg_argument_position_rejected (b : BP) (name : String) (n : Int) (value : Val) (i : Nat)
+    (hi : i < b.segs.length) (hidx : b.indexOf? name = some i)
+    (hsp : (b.segs[i]).fn.special = false)
+    (hn : n < 0 ∨ (((b.segs[i]).fn.params.length - 2 : Nat) : Int) ≤ n) :
+    (b.changeArg name (.num n) value false).err = some .value ∧
+    (b.changeArg name (.num n) value false).st = b := by
+  have hmem : name ∈ b.names := (mem_names_iff_indexOf? b name).mpr ⟨i, hidx⟩
+  have hc : b.names.contains name = true := by simpa using hmem
+  have hget : b.segs[i]? = some b.segs[i] := List.getElem?_eq_getElem hi
+  have hk := (argOk_position_out_of_range b.segs[i] n hn).2
+  unfold changeArg
+  simp only [targets_false, hc, not_true_eq_false, if_false]
+  unfold changeArgLoop changeArgOne
+  simp [hidx, hget, hsp, hk]
+
+example : exampleHist.eval.indexOf? "a3" = some 2 ∧
+    (exampleHist.eval.segs[2]!).fn.special = false ∧ "nope" ∉ (exampleHist.eval.segs[2]!).fn.params ∧
+    (((exampleHist.eval.segs[2]!).fn.params.length - 2 : Nat) : Int) ≤ 2 := by decide +kernel
+
+/-! ### `changeArg` with `replaceeverywhere = True` -/
+
+/-- what an accepted `changeArg` does to an addressed segment: only `args[k]`, where `k` is `arg`
+    resolved against that segment's own signature -/
+theorem setArgOf_spec (arg value : Val) (s : Seg) (h : argOk arg s = true) :
+    ∃ k, argIndex s arg = .ok k ∧ k < s.args.length ∧
+      setArgOf arg value s = { s with args := s.args.set k value } := by
+  obtain ⟨_, k, hk, hlt⟩ := (argOk_iff arg s).mp h
+  exact ⟨k, hk, hlt, by simp [setArgOf, hk, setArg]⟩
+
+/-- **`changeArg(name, arg, value, replaceeverywhere=True)`, acceptance**: for every blueprint with pairwise distinct names (in particular after any history) the
+    call is accepted exactly when the base name is a segment name and *every* segment sharing the
+    base name passes the per-segment checks (callable, argument known to its own signature). -/
+theorem changeArg_all_accepts_iff_of_distinct (b : BP) (hnd : b.names.Nodup) (name : String) (arg value : Val) :
+    (b.changeArg name arg value true).err = none ↔
+      basename name ∈ b.names ∧
+      ∀ s ∈ b.segs, basename s.name = basename name → argOk arg s = true := by
+  have hl : (b.names.filter (fun nm => basename nm == basename name)).Nodup := hnd.filter _
+  have hsub : ∀ nm ∈ b.names.filter (fun nm => basename nm == basename name), nm ∈ b.names :=
+    fun nm hm => (List.mem_filter.mp hm).1
+  have hspec := (changeArgLoop_spec b hnd _ hl hsub arg value).1
+  have hcond : (∀ s ∈ b.segs, s.name ∈ b.names.filter (fun nm => basename nm == basename name) →
+        argOk arg s = true) ↔ (∀ s ∈ b.segs, basename s.name = basename name → argOk arg s = true) := by
+    constructor
+    · intro hh s hs hb
+      exact hh s hs (List.mem_filter.mpr ⟨mem_names_of_mem_segs b s hs, by simpa using hb⟩)
+    · intro hh s hs hm
+      exact hh s hs (by simpa using (List.mem_filter.mp hm).2)
+  unfold changeArg
+  rw [targets_all, targets_fst]
+  by_cases hm : basename name ∈ b.names
+  · simp only [if_true, List.contains_iff_mem, hm, not_true_eq_false, if_false, true_and]
+    rw [hspec, hcond]
+  · simp [hm]
+
+/-- **`changeArg(name, arg, value, replaceeverywhere=True)`, effect** (clause "... of all segments
+    with the same base name when replaceeverywhere is set ... to exactly the given value and change
+    nothing else"): for every blueprint with pairwise distinct names (in particular after any history), an accepted call returns the old blueprint in which exactly
+    the segments whose base name equals `name`'s base had `arg` (resolved against each segment's own
+    signature) overwritten; all other segments, the order, the markers and the sample rate are the
+    old ones. -/
+theorem changeArg_all_frame_of_distinct (b : BP) (hnd : b.names.Nodup) (name : String) (arg value : Val)
+    (hacc : (b.changeArg name arg value true).err = none) :
+    (b.changeArg name arg value true).st =
+      { b with segs := b.segs.map (fun s =>
+          if basename s.name = basename name then setArgOf arg value s else s) } := by
+  have hl : (b.names.filter (fun nm => basename nm == basename name)).Nodup := hnd.filter _
+  have hsub : ∀ nm ∈ b.names.filter (fun nm => basename nm == basename name), nm ∈ b.names :=
+    fun nm hm => (List.mem_filter.mp hm).1
+  have hspec := (changeArgLoop_spec b hnd _ hl hsub arg value).2
+  unfold changeArg at hacc ⊢
+  rw [targets_all, targets_fst] at *
+  by_cases hm : basename name ∈ b.names
+  · simp only [if_true, List.contains_iff_mem, hm, not_true_eq_false, if_false] at hacc ⊢
+    rw [hspec hacc]
+    congr 1
+    apply List.map_congr_left
+    intro s hs
+    have : s.name ∈ b.names.filter (fun nm => basename nm == basename name) ↔
+        basename s.name = basename name := by
+      rw [List.mem_filter]
+      simp [mem_names_of_mem_segs b s hs]
+    by_cases e : basename s.name = basename name
+    · simp [e, this.mpr e]
+    · simp [e, mt this.mp e]
+  · simp [hm] at hacc
+
+/-- the same, segment by segment: same number of segments; segment `j` is untouched unless its
+    base name is `name`'s, in which case only `args[k_j]` changed, to `value`. -/
+theorem changeArg_all_frame_pointwise_of_distinct (b : BP) (hnd : b.names.Nodup) (name : String) (arg value : Val)
+    (hacc : (b.changeArg name arg value true).err = none) :
+    (b.changeArg name arg value true).st.segs.length = b.segs.length ∧
+    (b.changeArg name arg value true).st.marker1 = b.marker1 ∧
+    (b.changeArg name arg value true).st.marker2 = b.marker2 ∧
+    (b.changeArg name arg value true).st.SR = b.SR ∧
+    ∀ j (hj : j < b.segs.length) (hj2 : j < (b.changeArg name arg value true).st.segs.length),
+      (basename (b.segs[j]).name ≠ basename name →
+        (b.changeArg name arg value true).st.segs[j] = b.segs[j]) ∧
+      (basename (b.segs[j]).name = basename name →
+        ∃ k, argIndex b.segs[j] arg = .ok k ∧ k < (b.segs[j]).args.length ∧
+          (b.changeArg name arg value true).st.segs[j] =
+            { b.segs[j] with args := (b.segs[j]).args.set k value }) := by
+  have hfr := changeArg_all_frame_of_distinct b hnd name arg value hacc
+  have hall := ((changeArg_all_accepts_iff_of_distinct b hnd name arg value).mp hacc).2
+  generalize (b.changeArg name arg value true).st = r at *
+  subst hfr
+  refine ⟨by simp, rfl, rfl, rfl, ?_⟩
+  intro j hj hj2
+  constructor
+  · intro hne
+    simp [hne]
+  · intro he
+    obtain ⟨k, hk, hlt, hs⟩ := setArgOf_spec arg value _ (hall _ (List.getElem_mem hj) he)
+    exact ⟨k, hk, hlt, by simp [he, hs]⟩
+
+/-- non-vacuity: three segments share the base "a"; all get `stop := 5`, the other two stay -/
+example : (exampleHist.eval.changeArg "a2" (.str "stop") (.num 5) true).err = none ∧
+    ((exampleHist.eval.changeArg "a2" (.str "stop") (.num 5) true).st.segs.map (·.args)) =
+      [[.num 0, .num 5], [.num 0, .num 5], [.num 0, .num 5], [.num 0, .num 1], [.num 0, .num 1]] := by
+  decide +kernel
+
+/-! ### exactly one segment is addressed -/
+
+/-- for every blueprint with pairwise distinct names (in particular after any history) a name addresses exactly one position: `_namelist.index(name)` returns `i`
+    iff segment `i` carries that name -/
+theorem target_unique_of_distinct (b : BP) (hnd : b.names.Nodup) (name : String) (i : Nat) :
+    b.indexOf? name = some i ↔ ∃ hi : i < b.segs.length, (b.segs[i]).name = name :=
+  indexOf?_iff_of_nodup _ hnd name i
+
+/-- **`changeDuration(name, d)` accepted, `∃!` form** (clause "set exactly the addressed attribute
+    of exactly that segment ... and change nothing else"): for every blueprint with pairwise distinct names (in particular after any history) there is exactly one
+    position `i` carrying `name`, and the new blueprint is the old one with the duration at `i`
+    replaced by `d` (`List.set`: every other position, every other field, markers, SR untouched). -/
+theorem changeDuration_single_existsUnique_of_distinct (b : BP) (hnd : b.names.Nodup) (name : String) (d : Rat)
+    (hacc : (b.changeDuration name (.num d) false).err = none) :
+    ∃! i, ∃ hi : i < b.segs.length, (b.segs[i]).name = name ∧
+      (b.changeDuration name (.num d) false).st =
+        { b with segs := b.segs.set i { b.segs[i] with dur := .num d } } := by
+  have hfr := changeDuration_frame b name d false hacc
+  obtain ⟨_, _, hmem, _⟩ := (changeDuration_accepts_iff b name (.num d) false).mp hacc
+  have hmem' : name ∈ b.names := by simpa [targets_false] using hmem
+  obtain ⟨i, hidx⟩ := (mem_names_iff_indexOf? b name).mp hmem'
+  obtain ⟨hi, hname⟩ := indexOf?_some b name i hidx
+  refine ⟨i, ⟨hi, hname, ?_⟩, ?_⟩
+  · rw [hfr, targets_single]
+    congr 1
+    rw [← modify_eq_set b.segs i hi (fun s => { s with dur := .num d }),
+      modify_eq_map_of_nodup b.segs (by simpa [names] using hnd) i hi, hname]
+    apply List.map_congr_left
+    intro s _
+    simp [setDur]
+  · rintro j ⟨hj, hjn, _⟩
+    have := (indexOf?_iff_of_nodup b hnd name j).mpr ⟨hj, hjn⟩
+    rw [hidx] at this
+    exact (Option.some.inj this).symm
+
+/-- **`changeArg(name, arg, value)` accepted, `∃!` form**: exactly one position carries `name`,
+    exactly `args[k]` of that segment changes. -/
+theorem changeArg_single_existsUnique_of_distinct (b : BP) (hnd : b.names.Nodup) (name : String) (arg value : Val)
+    (hacc : (b.changeArg name arg value false).err = none) :
+    ∃! i, ∃ hi : i < b.segs.length, (b.segs[i]).name = name ∧
+      ∃ k, argIndex b.segs[i] arg = .ok k ∧ k < (b.segs[i]).args.length ∧
+        (b.changeArg name arg value false).st =
+          { b with
+            segs := b.segs.set i { b.segs[i] with args := (b.segs[i]).args.set k value } } := by
+  obtain ⟨i, k, seg, hidx, hget, hk, hlt, hst⟩ := changeArg_frame b name arg value hacc
+  obtain ⟨hi, hname⟩ := indexOf?_some b name i hidx
+  have hs : b.segs[i] = seg := by
+    rw [List.getElem?_eq_getElem hi] at hget
+    exact Option.some.inj hget
+  subst hs
+  refine ⟨i, ⟨hi, hname, k, hk, hlt, ?_⟩, ?_⟩
+  · rw [hst]
+    unfold modifySeg
+    rw [modify_eq_set _ _ hi]
+    rfl
+  · rintro j ⟨hj, hjn, _⟩
+    have := (indexOf?_iff_of_nodup b hnd name j).mpr ⟨hj, hjn⟩
+    rw [hidx] at this
+    exact (Option.some.inj this).symm
+
+/-- **`setSegmentMarker(name, specs, id)` accepted, `∃!` form**: exactly one position carries `name`;
+    exactly the marker `id` of that segment is set to `specs`. -/
+theorem setSegmentMarker_existsUnique_of_distinct (b : BP) (hnd : b.names.Nodup) (name : String) (m : Mark) (mid : Int)
+    (hacc : (b.setSegmentMarker name m mid).err = none) :
+    ∃! i, ∃ hi : i < b.segs.length, (b.segs[i]).name = name ∧
+      (b.setSegmentMarker name m mid).st =
+        { b with
+          segs := b.segs.set i
+                    (if mid = 1 then { b.segs[i] with m1 := m } else { b.segs[i] with m2 := m }) } := by
+  obtain ⟨i, hidx, _, hst⟩ := setSegmentMarker_frame b name m mid hacc
+  obtain ⟨hi, hname⟩ := indexOf?_some b name i hidx
+  refine ⟨i, ⟨hi, hname, ?_⟩, ?_⟩
+  · rw [hst]
+    unfold modifySeg
+    rw [modify_eq_set _ _ hi]
+    rfl
+  · rintro j ⟨hj, hjn, _⟩
+    have := (indexOf?_iff_of_nodup b hnd name j).mpr ⟨hj, hjn⟩
+    rw [hidx] at this
+    exact (Option.some.inj this).symm
+
+example : (exampleHist.eval.setSegmentMarker "a1b" (1, 2) 2).err = none := by decide +kernel
+
+/-! ### Element delegation (`Element.changeArg` / `Element.changeDuration`) -/
+
+/-- the common body of `Element.changeArg` and `Element.changeDuration`: on a channel holding a
+    blueprint the operation `f` is run on that blueprint — the exception raised is `f`'s, the
+    channel's new blueprint is `f`'s result (flags kept), every other channel, the channel order and
+    the cached `(SR, duration)` are untouched -/
+theorem element_withBP_delegates (e : Element) (ch : Chan) (f : BP → Res BP) (ent : ChEntry) (b : BP)
+    (hget : Dict.get? e.chans ch = some ent) (hb : ent.data = .bp b) :
+    (e.withBP ch f).err = (f b).err ∧
+    Dict.get? (e.withBP ch f).st.chans ch = some { ent with data := .bp (f b).st } ∧
+    (∀ ch2, ch2 ≠ ch → Dict.get? (e.withBP ch f).st.chans ch2 = Dict.get? e.chans ch2) ∧
+    Dict.keys (e.withBP ch f).st.chans = Dict.keys e.chans ∧
+    (e.withBP ch f).st.cache = e.cache := by
+  have hk : ch ∈ Dict.keys e.chans := by
+    rw [← Dict.get?_isSome_iff, hget]; rfl
+  unfold Element.withBP
+  simp only [hget, hb]
+  exact ⟨trivial, Dict.get?_upsert_self _ _ _, fun ch2 hne => Dict.get?_upsert_other _ _ _ _ hne,
+    Dict.keys_upsert_of_mem _ _ _ hk, trivial⟩
+
+/-- **`Element.changeArg` delegates** (clause "... also when issued through an Element"): for every
+    element, channel holding a blueprint `b`, and all arguments: the call raises exactly what
+    `b.changeArg` raises and the channel then holds exactly `b.changeArg`'s result; nothing else in
+    the element changes. -/
+theorem element_changeArg_delegates (e : Element) (ch : Chan) (name : String) (arg value : Val) (all : Bool)
+    (ent : ChEntry) (b : BP) (hget : Dict.get? e.chans ch = some ent) (hb : ent.data = .bp b) :
+    (e.changeArg ch name arg value all).err = (b.changeArg name arg value all).err ∧
+    Dict.get? (e.changeArg ch name arg value all).st.chans ch =
+      some { ent with data := .bp (b.changeArg name arg value all).st } ∧
+    (∀ ch2, ch2 ≠ ch → Dict.get? (e.changeArg ch name arg value all).st.chans ch2 = Dict.get? e.chans ch2) ∧
+    Dict.keys (e.changeArg ch name arg value all).st.chans = Dict.keys e.chans ∧
+    (e.changeArg ch name arg value all).st.cache = e.cache :=
+  element_withBP_delegates e ch (fun b => b.changeArg name arg value all) ent b hget hb
+
+/-- **`Element.changeDuration` delegates**: same statement for `changeDuration`. -/
+theorem element_changeDuration_delegates (e : Element) (ch : Chan) (name : String) (dur : Val) (all : Bool)
+    (ent : ChEntry) (b : BP) (hget : Dict.get? e.chans ch = some ent) (hb : ent.data = .bp b) :
+    (e.changeDuration ch name dur all).err = (b.changeDuration name dur all).err ∧
+    Dict.get? (e.changeDuration ch name dur all).st.chans ch =
+      some { ent with data := .bp (b.changeDuration name dur all).st } ∧
+    (∀ ch2, ch2 ≠ ch → Dict.get? (e.changeDuration ch name dur all).st.chans ch2 = Dict.get? e.chans ch2) ∧
+    Dict.keys (e.changeDuration ch name dur all).st.chans = Dict.keys e.chans ∧
+    (e.changeDuration ch name dur all).st.cache = e.cache :=
+  element_withBP_delegates e ch (fun b => b.changeDuration name dur all) ent b hget hb
+
+/-- a channel that does not exist or holds no blueprint: ValueError, element unchanged -/
+theorem element_edit_no_blueprint_rejected (e : Element) (ch : Chan) (f : BP → Res BP)
+    (h : ∀ ent, Dict.get? e.chans ch = some ent → ∀ b, ent.data ≠ .bp b) :
+    (e.withBP ch f).err = some .value ∧ (e.withBP ch f).st = e := by
+  unfold Element.withBP
+  cases hg : Dict.get? e.chans ch with
+  | none => simp
+  | some ent =>
+    have := h ent hg
+    cases hd : ent.data with
+    | bp b => exact absurd hd (this b)
+    | arr a s => simp
+    | broken => simp
+
+/-- consequently a rejected single-segment edit issued through an Element leaves the element's
+    channel entry as it was, and an accepted one changes exactly the addressed attribute of the
+    addressed segment of that channel's blueprint (combine with `changeArg_frame`,
+    `changeDuration_frame`, `changeArg_all_frame`). -/
+theorem element_changeArg_rejected_unchanged (e : Element) (ch : Chan) (name : String) (arg value : Val)
+    (ent : ChEntry) (b : BP) (hget : Dict.get? e.chans ch = some ent) (hb : ent.data = .bp b)
+    (hrej : (e.changeArg ch name arg value false).err ≠ none) :
+    Dict.get? (e.changeArg ch name arg value false).st.chans ch = some ent := by
+  obtain ⟨herr, hst, _⟩ := element_changeArg_delegates e ch name arg value false ent b hget hb
+  rw [herr] at hrej
+  rw [hst, changeArg_rejected_unchanged b name arg value hrej, ← hb]
+
+/-- clause "a single-segment edit that is rejected leaves the blueprint unchanged", issued through
+    `Element.changeDuration`: the channel entry is exactly the old one -/
+theorem element_changeDuration_rejected_unchanged (e : Element) (ch : Chan) (name : String) (dur : Val)
+    (all : Bool) (ent : ChEntry) (b : BP) (hget : Dict.get? e.chans ch = some ent) (hb : ent.data = .bp b)
+    (hrej : (e.changeDuration ch name dur all).err ≠ none) :
+    Dict.get? (e.changeDuration ch name dur all).st.chans ch = some ent := by
+  obtain ⟨herr, hst, _⟩ := element_changeDuration_delegates e ch name dur all ent b hget hb
+  rw [herr] at hrej
+  rw [hst, changeDuration_rejected_unchanged b name dur all hrej, ← hb]
+
+/-- non-vacuity: an element with a blueprint on channel 1 and a raw array on channel "x" -/
+def exampleElement : Element :=
+  ((({} : Element).addBluePrint (.int 1) exampleHist.eval).st.addArray (.str "x") [1, 2] (.num 1) []).st
+
+example : Dict.get? exampleElement.chans (.int 1) = some { data := .bp exampleHist.eval } ∧
+    (exampleElement.changeArg (.int 1) "a3" (.str "stop") (.num 5) false).err = none ∧
+    (exampleElement.changeDuration (.int 1) "zz" (.num 5) false).err = some .value ∧
+    (exampleElement.changeDuration (.str "x") "a" (.num 5) false).err = some .value := by
+  decide +kernel
+
+/-! ### the description holds one record per segment, in order -/
+
+/-- the record `BluePrint.description` holds for one segment -/
+def segRecord (s : Seg) : J :=
+  J.obj
+    [ ("name", .str s.name)
+    , ("function", .str s.fn.qual)
+    , ("durations", J.ofVal s.dur)
+    , ("arguments",
+        if s.fn.isWait then J.obj [("waittime", .arr (s.args.map J.ofVal))]
+        else J.obj ((s.fn.params.zip s.args).map (fun (p, a) => (p, J.ofVal a)))) ]
+
+/-- **description** (clause "the description holds exactly one name, function, argument tuple,
+    duration and pair of segment markers per segment, in order"): for every blueprint the description
+    is the list of `length_segments` segment records — the `i`-th under the key `segment_{i+1:02d}`
+    carrying segment `i`'s name, function, duration and arguments — followed by the two absolute
+    marker lists and the two segment-marker lists, which hold segment `i`'s marker pair at index `i`. -/
+theorem toDesc_one_record_per_segment (b : BP) :
+    ∃ recs : List (String × J), ∃ r1 r2 : List J,
+      b.toDesc = J.obj (recs ++
+        [ ("marker1_abs", .arr (b.marker1.map J.ofMark)), ("marker2_abs", .arr (b.marker2.map J.ofMark))
+        , ("marker1_rel", .arr r1), ("marker2_rel", .arr r2) ]) ∧
+      recs.length = b.segs.length ∧ r1.length = b.segs.length ∧ r2.length = b.segs.length ∧
+      ∀ i (hi : i < b.segs.length) (h0 : i < recs.length) (h1 : i < r1.length) (h2 : i < r2.length),
+        recs[i] = (segKey (i + 1), segRecord b.segs[i]) ∧
+        r1[i] = J.ofMark (b.segs[i]).m1 ∧ r2[i] = J.ofMark (b.segs[i]).m2 := by
+  refine ⟨_, _, _, rfl, by simp, by simp, by simp, ?_⟩
+  intro i hi h0 h1 h2
+  simp [segRecord]
+
+/-- the segment keys `segment_01, segment_02, ...` are pairwise distinct, so "one record per
+    segment" is not blurred by a dict-key collision (for every number of segments) -/
+theorem segment_keys_distinct (n m : Nat) (h : segKey n = segKey m) : n = m :=
+  segKey_injective n m h
+
+/-! ### the same statements for blueprints reached through the public API -/
+
+/-- **`changeArg(..., replaceeverywhere=True)` after any history: acceptance** -/
+theorem changeArg_all_accepts_iff (h : Hist) (name : String) (arg value : Val) :
+    (h.eval.changeArg name arg value true).err = none ↔
+      basename name ∈ h.eval.names ∧
+      ∀ s ∈ h.eval.segs, basename s.name = basename name → argOk arg s = true :=
+  changeArg_all_accepts_iff_of_distinct _ (names_distinct h) name arg value
+
+/-- **`changeArg(..., replaceeverywhere=True)` after any history: effect** — exactly the segments
+    sharing `name`'s base name get `arg` (resolved per segment) set to `value`; nothing else changes. -/
+theorem changeArg_all_frame (h : Hist) (name : String) (arg value : Val)
+    (hacc : (h.eval.changeArg name arg value true).err = none) :
+    (h.eval.changeArg name arg value true).st =
+      { h.eval with segs := h.eval.segs.map (fun s =>
+          if basename s.name = basename name then setArgOf arg value s else s) } :=
+  changeArg_all_frame_of_distinct _ (names_distinct h) name arg value hacc
+
+/-- after any history a name addresses exactly one position -/
+theorem target_unique (h : Hist) (name : String) (i : Nat) :
+    h.eval.indexOf? name = some i ↔ ∃ hi : i < h.eval.segs.length, (h.eval.segs[i]).name = name :=
+  target_unique_of_distinct _ (names_distinct h) name i
+
+/-- **accepted `changeDuration(name, d)` after any history, `∃!` form** -/
+theorem changeDuration_single_existsUnique (h : Hist) (name : String) (d : Rat)
+    (hacc : (h.eval.changeDuration name (.num d) false).err = none) :
+    ∃! i, ∃ hi : i < h.eval.segs.length, (h.eval.segs[i]).name = name ∧
+      (h.eval.changeDuration name (.num d) false).st =
+        { h.eval with segs := h.eval.segs.set i { h.eval.segs[i] with dur := .num d } } :=
+  changeDuration_single_existsUnique_of_distinct _ (names_distinct h) name d hacc
+
+/-- **accepted `changeArg(name, arg, value)` after any history, `∃!` form** -/
+theorem changeArg_single_existsUnique (h : Hist) (name : String) (arg value : Val)
+    (hacc : (h.eval.changeArg name arg value false).err = none) :
+    ∃! i, ∃ hi : i < h.eval.segs.length, (h.eval.segs[i]).name = name ∧
+      ∃ k, argIndex h.eval.segs[i] arg = .ok k ∧ k < (h.eval.segs[i]).args.length ∧
+        (h.eval.changeArg name arg value false).st =
+          { h.eval with
+            segs := h.eval.segs.set i { h.eval.segs[i] with args := (h.eval.segs[i]).args.set k value } } :=
+  changeArg_single_existsUnique_of_distinct _ (names_distinct h) name arg value hacc
+
+/-- **accepted `setSegmentMarker(name, specs, id)` after any history, `∃!` form** -/
+theorem setSegmentMarker_existsUnique (h : Hist) (name : String) (m : Mark) (mid : Int)
+    (hacc : (h.eval.setSegmentMarker name m mid).err = none) :
+    ∃! i, ∃ hi : i < h.eval.segs.length, (h.eval.segs[i]).name = name ∧
+      (h.eval.setSegmentMarker name m mid).st =
+        { h.eval with
+          segs := h.eval.segs.set i
+                    (if mid = 1 then { h.eval.segs[i] with m1 := m } else { h.eval.segs[i] with m2 := m }) } :=
+  setSegmentMarker_existsUnique_of_distinct _ (names_distinct h) name m mid hacc
+
+/-- after any history, "the base name is a segment name" (what the code tests with
+    `replaceeverywhere`) means exactly "some segment has this base name" -/
+theorem base_known_iff (h : Hist) (name : String) :
+    basename name ∈ h.eval.names ↔ ∃ s ∈ h.eval.segs, basename s.name = basename name := by
+  constructor
+  · intro hm
+    obtain ⟨s, hs, e⟩ := List.mem_map.mp hm
+    exact ⟨s, hs, by rw [e, basename_idem]⟩
+  · rintro ⟨s, hs, e⟩
+    rw [← e]
+    exact base_mem_names (inv_reachable h) _ (mem_names_of_mem_segs _ s hs)
+
+/-- **unknown base name with `replaceeverywhere`** (clause "An unknown segment ... is rejected"):
+    after any history, if no segment has `name`'s base name then `changeArg` and `changeDuration`
+    with `replaceeverywhere=True` raise ValueError and leave the blueprint unchanged — for every
+    argument, value and duration. -/
+theorem replaceeverywhere_unknown_base_rejected (h : Hist) (name : String) (arg value dur : Val)
+    (hno : ∀ s ∈ h.eval.segs, basename s.name ≠ basename name) :
+    ((h.eval.changeArg name arg value true).err = some .value ∧
+      (h.eval.changeArg name arg value true).st = h.eval) ∧
+    ((h.eval.changeDuration name dur true).err = some .value ∧
+      (h.eval.changeDuration name dur true).st = h.eval) := by
+  have hn : basename name ∉ h.eval.names := by
+    intro hm
+    obtain ⟨s, hs, e⟩ := (base_known_iff h name).mp hm
+    exact hno s hs e
+  exact ⟨changeArg_unknown_segment_rejected _ name arg value true (by simpa using hn),
+    changeDuration_unknown_segment_rejected _ name dur true (by simpa using hn)⟩
+
+example : ∀ s ∈ exampleHist.eval.segs, basename s.name ≠ basename "zz7" := by decide +kernel
+
+/-! ### `BluePrint.__init__` from lists -/
+
+/-- `BluePrint(funlist, argslist, namelist, marker1, marker2, segmentmarker1, segmentmarker2, SR,
+    durslist)` for input lists of equal length, given as a list of segment records whose `name`
+    field is the name *passed in*: a non-empty name ending in a digit is a ValueError; special
+    segments take their protected name, empty names the function's `__name__`; then
+    `_make_names_unique`.  (Lists of unequal lengths raise ValueError before anything else and have
+    no counterpart here.) -/
+def initFromLists (segs : List Seg) (m1 m2 : List Mark) (sr : Val) : Except Err BP :=
+  if segs.any (fun s => s.name ≠ "" && endsInDigit s.name) then .error .value
+  else .ok { segs := renumber (segs.map (fun s => { s with name := initName s s.name }))
+             marker1 := m1, marker2 := m2, SR := sr }
+
+/-- histories that may also start from (or add, or continue from) a blueprint constructed from
+    lists; a constructor call that raises produces no object, modelled as the empty blueprint -/
+inductive HistI where
+  | empty
+  | init (segs : List Seg) (m1 m2 : List Mark) (sr : Val)
+  | op (h : HistI) (o : Op)
+  | copy (h : HistI)
+  | add (h₁ h₂ : HistI)
+
+/-- the blueprint a history with constructor calls produces -/
+def HistI.eval : HistI → BP
+  | .empty => {}
+  | .init segs m1 m2 sr => match initFromLists segs m1 m2 sr with | .ok b => b | .error _ => {}
+  | .op h o => (h.eval.step o).st
+  | .copy h => h.eval.copy
+  | .add h₁ h₂ => h₁.eval.add h₂.eval
+
+/-- every `Hist` is a `HistI` -/
+def HistI.ofHist : Hist → HistI
+  | .empty => .empty
+  | .op h o => .op (ofHist h) o
+  | .copy h => .copy (ofHist h)
+  | .add h₁ h₂ => .add (ofHist h₁) (ofHist h₂)
+
+/-- ... and evaluates to the same blueprint, so `HistI` only adds blueprints -/
+theorem histI_eval_ofHist (h : Hist) : (HistI.ofHist h).eval = h.eval := by
+  induction h with
+  | empty => rfl
+  | op h o ih => simp [HistI.ofHist, HistI.eval, Hist.eval, ih]
+  | copy h ih => simp [HistI.ofHist, HistI.eval, Hist.eval, ih]
+  | add h₁ h₂ ih₁ ih₂ => simp [HistI.ofHist, HistI.eval, Hist.eval, ih₁, ih₂]
+
+/-- the constructor produces canonically numbered names -/
+theorem inv_initFromLists (segs : List Seg) (m1 m2 : List Mark) (sr : Val) (b : BP)
+    (h : initFromLists segs m1 m2 sr = .ok b) : Inv b := by
+  unfold initFromLists at h
+  split at h
+  · simp at h
+  · simp only [Except.ok.injEq] at h
+    subst h
+    exact inv_renumber { segs := [], marker1 := m1, marker2 := m2, SR := sr } _
+
+/-- **names stay canonical / distinct for histories that include `BluePrint.__init__` from lists**
+    (clause "After any history ... segment names are pairwise distinct"). -/
+theorem names_canonical_with_init (h : HistI) :
+    makeNamesUnique h.eval.names = h.eval.names ∧ h.eval.names.Nodup := by
+  have hinv : Inv h.eval := by
+    induction h with
+    | empty => exact inv_empty
+    | init segs m1 m2 sr =>
+      unfold HistI.eval
+      cases hi : initFromLists segs m1 m2 sr with
+      | ok b => exact inv_initFromLists segs m1 m2 sr b hi
+      | error e => exact inv_empty
+    | op h o ih => exact inv_step ih o
+    | copy h _ => exact inv_copy _
+    | add h₁ h₂ _ _ => exact inv_add _ _
+  exact ⟨hinv, inv_nodup hinv⟩
+
+/-- what the constructor produces besides the names: one segment per input record, every field
+    except the name as given, in order; markers and SR as given -/
+theorem initFromLists_body (segs : List Seg) (m1 m2 : List Mark) (sr : Val) (b : BP)
+    (h : initFromLists segs m1 m2 sr = .ok b) :
+    b.segs.map Seg.body = segs.map Seg.body ∧ b.segs.length = segs.length ∧
+    b.marker1 = m1 ∧ b.marker2 = m2 ∧ b.SR = sr := by
+  unfold initFromLists at h
+  split at h
+  · simp at h
+  · simp only [Except.ok.injEq] at h
+    subst h
+    refine ⟨?_, by simp [renumber_length], rfl, rfl, rfl⟩
+    rw [renumber_body]
+    simp [Seg.body, Function.comp_def]
+
+/-- a given name ending in a digit is refused by the constructor -/
+theorem initFromLists_digit_name_rejected (segs : List Seg) (m1 m2 : List Mark) (sr : Val) (s : Seg)
+    (hs : s ∈ segs) (hne : s.name ≠ "") (hd : endsInDigit s.name = true) :
+    initFromLists segs m1 m2 sr = .error .value := by
+  unfold initFromLists
+  have : segs.any (fun s => s.name ≠ "" && endsInDigit s.name) = true := by
+    rw [List.any_eq_true]
+    exact ⟨s, hs, by simp [hne, hd]⟩
+  rw [if_pos this]
+
+/-- non-vacuity: names ["a", "", "a", "b"] with ramp functions become a, ramp, a2, b; every
+    `_of_distinct` theorem above applies to such blueprints through `names_canonical_with_init` -/
+example : (HistI.init
+      [ { name := "a", fn := Fn.rampFn, args := [.num 0, .num 1], dur := .num 1 }
+      , { name := "", fn := Fn.rampFn, args := [.num 0, .num 1], dur := .num 1 }
+      , { name := "a", fn := Fn.rampFn, args := [.num 0, .num 1], dur := .num 1 }
+      , { name := "b", fn := Fn.rampFn, args := [.num 0, .num 1], dur := .num 1 } ] [] [] (.num 10)).eval.names
+    = ["a", "ramp", "a2", "b"] := by decide +kernel
+
+
+/-- **`Element.description`** (observation point of the property): the entry of a blueprint channel
+    is exactly that blueprint's `description` — hence one record per segment, in order, by
+    `toDesc_one_record_per_segment` — with the channel's flags appended as a last field when set. -/
+theorem element_description_of_blueprint_channel (b : BP) (fl : List Nat) :
+    Element.chanDesc { data := .bp b, flags := none } = .ok b.toDesc ∧
+    ∃ fields, b.toDesc = J.obj fields ∧
+      Element.chanDesc { data := .bp b, flags := some fl } =
+        .ok (J.obj (fields ++ [("flags", Element.flagsJ fl)])) := by
+  constructor
+  · simp [Element.chanDesc, BP.toDesc, pure, Except.pure]
+  · exact ⟨_, rfl, by simp [Element.chanDesc, BP.toDesc, pure, Except.pure]⟩
 
 end BB.C05
